@@ -5,7 +5,7 @@ The harness is the C08 one (props/c08.py) run with the SQLite dialect of props/s
 from props import c08
 
 def run(ctx):
-    c08.run(ctx, dialects=['sqlite'])
+    c08.run(ctx, dialects=['sqlite'], deep=True)   # one dialect only: the thorough toggle groups fit the quick budget (about a minute)
     ctx.assumptions.append('NOT decided here: acceptance and row / table-content equality on a running SQLite engine; the claim is grammar conformance and clause recovery against my reading of the SQLite grammar')
 
 def replay(ctx, data):
